@@ -148,6 +148,9 @@ func sameShape(a, b *ref.Result) bool {
 }
 
 func init() {
+	hx.Register("c12table", func(raw json.RawMessage) error {
+		return fmt.Errorf("re-run the check: the latency table is judged as a whole (TestC12Table)")
+	})
 	hx.Register("c12", func(raw json.RawMessage) error {
 		var c c12Case
 		if err := json.Unmarshal(raw, &c); err != nil {
@@ -207,8 +210,15 @@ func TestC12ValueIndependence(t *testing.T) {
 	rapid.Check(t, func(rt *rapid.T) {
 		c, data := gen.VIProgram(rt, viProfile)
 		regs2 := c.Regs
+		smallData := rapid.Bool().Draw(rt, "smalldata")
 		for _, d := range data {
 			regs2[d] = gen.Value().Draw(rt, "data2")
+			if smallData {
+				// data values that look like in-bounds addresses: if a data value ever
+				// leaked into an address computation it would hit a real line
+				regs2[d] = rapid.Int32Range(0, int32(c.MemSize)-1).Draw(rt, "data2small")
+				c.Regs[d] = rapid.Int32Range(0, int32(c.MemSize)-1).Draw(rt, "data1small")
+			}
 		}
 		c2 := *c
 		c2.Regs = regs2
@@ -237,4 +247,47 @@ func TestC12ValueIndependence(t *testing.T) {
 			}
 		}
 	})
+}
+
+// TestC12Table pins the documented latency table itself (common/latency cites
+// the Apple M1 numbers it was taken from; the repository's TestBenchmarks pins
+// cycle counts derived from it): the model check above reads the table from
+// the code, so without this a changed entry would move both sides.
+func TestC12Table(t *testing.T) {
+	h := hx.Begin(t, "C12", "table")
+	type entry struct {
+		name      string
+		got, want int
+	}
+	es := []entry{
+		{"latency.RegisterAccess", latency.RegisterAccess, 1},
+		{"latency.L1Access", latency.L1Access, 3},
+		{"latency.L2Access", latency.L2Access, 18},
+		{"latency.L3Access", latency.L3Access, 50},
+		{"latency.MemoryAccess", latency.MemoryAccess, 309},
+		{"latency.Flush", latency.Flush, 1},
+	}
+	for _, op := range ref.Mnemonics {
+		in := ref.Ins{Op: op, Rd: 5, Rs1: 6, Rs2: 7}
+		if ref.Shape(op) == ref.ShapeBr1 || ref.Shape(op) == ref.ShapeBr2 || ref.Shape(op) == ref.ShapeJ || ref.Shape(op) == ref.ShapeJal {
+			in.Label = "L"
+		}
+		want := 1
+		if in.IsLoad() {
+			want = 50 // a load's execute latency is the documented load-to-use time
+		}
+		es = append(es, entry{"Cycles(" + op + ")", execCycles(in), want})
+	}
+	for i, e := range es {
+		h.Eval(hx.Hash(e.name), true, "table")
+		if i < 4 {
+			h.Sample(map[string]any{"entry": e.name, "value": e.got})
+		}
+		if e.got != e.want {
+			msg := fmt.Sprintf("latency table: %s = %d, the documented value is %d", e.name, e.got, e.want)
+			h.Fail("c12table", e.name, 0, msg)
+			t.Fatalf("%s", msg)
+		}
+	}
+	h.Exhaustive()
 }
